@@ -284,7 +284,6 @@ def add_rtt(u):
             forbid=[r'waiting_for_keepalive_response\s*(=[^=]|\|=|&=)', r'last_keepalive_sent_ms\s*(=[^=]|\+=|-=)', r'self\.(reset|record_keepalive_sent|handle_keepalive_response)\('])
     u.audit(CONN, 'calculate_bitrate', impl='SrtlaConnection', sig=['&mut self', 'now_ms: u64'], require=[r'^\{ self\.bitrate\.calculate\(now_ms\); \}$'])
     u.audit(CONN, 'queue_building_suspected', impl='SrtlaConnection', sig=['(&self)'])
-    u.audit(K + 'selection/enhanced.rs', 'cc_soft_cap_multiplier', sig=['(conn: &SrtlaConnection)'])
     u.add(impl_block('Ewma', [u.fn(K + 'ewma.rs', 'reset', impl='Ewma', sub='reconn', ensures=['!final(self).initialized'])]))
     u.add(impl_block('RttTracker', [
         u.fn(T, 'reset', impl='RttTracker', sub='reconn',
@@ -608,6 +607,11 @@ def add_selection(u):
     ebody = [u.consts(E, names=['IN_FLIGHT_CAP_BDP_MULT', 'SWITCH_THRESHOLD', 'CC_SOFT_CAP_FLOOR', 'GATED_LINK_PENALTY']),
              u.item(K + 'selection/link_cc.rs', 'const', 'ASSUMED_SRT_PAYLOAD_BYTES'),
              S.ENH_STUBS,
+             # the soft-cap factor is a verified body against an explicit spec function (was an external body with an assumed range)
+             u.fn(E, 'cc_soft_cap_multiplier', sub='select', ret='r', qual='enhanced::cc_soft_cap_multiplier',
+                  post_rewrite=[('cap as f64', 'cast_u64_f64(cap)', 1)],
+                  ensures=[C('C11+C12.select.enhanced.soft_cap_factor_is_the_documented_function_of_cc_target_and_measured_bitrate', 'r == spec_soft_cap(conn)'), 'cap_ok(r)'],
+                  splices=[('@BEGIN', '    proof { reveal(spec_soft_cap); lemma_soft_cap_in_range(conn); }', 'after')]),
              # the cold logging helper is a verified body, not a stub: a stub with a `&` parameter would hide a change that makes it mutate the link
              u.fn(E, 'log_quality_state', sub='select', qual='enhanced::log_quality_state'),
              u.fn(E, 'in_flight_cap_packets', sub='select', ret='r', qual='enhanced::in_flight_cap_packets',
